@@ -278,6 +278,12 @@ func c10Run(c *c10Case) string {
 
 func c10Enumerate(sh *evidence.Shard) {
 	env := sh.Env()
+	if env.Thorough() {
+		// thorough: denser value grids around every boundary the code compares against
+		c10ClientVals = []uint64{0, 1, 2, 65535, 65536, 65537, 1 << 20, 1000000000, 1<<32 - 1, 1 << 32, 1<<32 + 1, 1 << 53, 1<<63 - 1, 1 << 63, 1<<63 + 1, math.MaxUint64 - 1, math.MaxUint64}
+		c10ServerVals = []uint64{0, 65536, 65537, 1 << 20, 1000000000, 1 << 32, 1<<63 - 1, 1 << 63, math.MaxUint64 - 1, math.MaxUint64}
+		c10Hdrs = append(c10Hdrs, "00065536", "+5", "0x10000", "65536 ", "9223372036854775807", "9223372036854775808", "18446744073709551614", "99999999999999999999999", "auto ", "AUTO", "true", "٣")
+	}
 	var item int64
 	run := func(p *evidence.Part, c c10Case) bool {
 		item++
